@@ -408,6 +408,19 @@ def rule_b_str(model, rep):
 def rule_c(model, rep):
     R = "C06.c-declared-size"
     UH = "passlib.utils.handlers"
+    # integer salts: the generator covers the documented 4-bit range 0..15, every value included
+    CI = "passlib.handlers.cisco"
+    fn = model.func(CI, "cisco_type7._generate_salt")
+    rets = [n.value for n in walk_no_nested(fn) if isinstance(n, ast.Return) and isinstance(n.value, ast.Call)]
+    span = None
+    if len(rets) == 1 and isinstance(rets[0].func, ast.Attribute) and len(rets[0].args) == 2:
+        a, b = (model.fold(model.unit(CI), x) for x in rets[0].args)
+        if isinstance(a, int) and isinstance(b, int):
+            span = (a, b) if rets[0].func.attr == "randint" else ((a, b - 1) if rets[0].func.attr == "randrange" else None)
+    lo, hi = model.class_const((CI, "cisco_type7"), "min_salt_value"), model.class_const((CI, "cisco_type7"), "max_salt_value")
+    rep.check(span == (0, 15) and lo == 0 and isinstance(hi, int) and hi >= 15, R, site(CI, "cisco_type7._generate_salt"), f"{ast.unparse(rets[0]) if rets else '<none>'} draws {span}; accepted range {lo}..{hi}",
+              "cisco type 7 salts are generated over the whole documented range(0, 16) (inclusive bounds counted for randint, exclusive for randrange)",
+              witness="one of the 16 salt values is never generated (e.g. randrange(0, 15) never yields 15): the salt distribution is not the declared one")
     # base generators
     for clsname, helper, nargs in (("HasSalt", "getrandstr", 3), ("HasRawSalt", "getrandbytes", 2)):
         owner, fn = model.method((UH, clsname), "_generate_salt")
@@ -595,7 +608,7 @@ def rule_e(model, rep):
         if isinstance(st, ast.Expr) and isinstance(st.value, ast.Constant):
             continue
         if isinstance(st, ast.If) and "in _forbidden_scheme_options" in qtext(st.test) and \
-                any(isinstance(x, ast.Raise) for x in st.body) and "not in" not in qtext(st.test):
+                any(isinstance(x, ast.Raise) for x in st.body) and not qtext(st.test).loose("not in"):
             ok = True
         break
     rep.check(ok, R, s, ast.unparse(fn.body[0] if not isinstance(fn.body[0], ast.Expr) else fn.body[1])[:160],
